@@ -206,3 +206,11 @@ pub fn restore_static() {
         std::ptr::copy_nonoverlapping(std::ptr::addr_of!(PRISTINE) as *const u8, bumpalo::verif_hooks::empty_chunk_addr() as *mut u8, PRISTINE_LEN);
     }
 }
+
+/// Run reference-model code whose (expected) panics should not be reported as machinery panics.
+pub fn quiet<R>(f: impl FnOnce() -> R) -> R {
+    let old = IN_OP.with(|c| c.replace(true));
+    let r = f();
+    IN_OP.with(|c| c.set(old));
+    r
+}
